@@ -62,6 +62,16 @@ def disc_root(schema, c):
     return None
 
 
+def under_tagger(schema, c):
+    """some ancestor's class-level discriminator has a variant_tagger_fn (every descendant is registered by name)"""
+    c = schema["classes"][c]["parent"]
+    while c is not None:
+        if schema["classes"][c].get("tagger"):
+            return True
+        c = schema["classes"][c]["parent"]
+    return False
+
+
 def has_tag(schema, c):
     """the class body binds the discriminator attribute `kind` itself (variant.__dict__["kind"])"""
     return bool(schema["classes"][c].get("tag"))
@@ -77,10 +87,24 @@ def subclasses_walk(schema, p):
     return out
 
 
-def disc_variants(schema, p, wf, sup):
+def discu_variants(schema, cs, wf, sb, sp):
+    """the classes Annotated[Union[cs], Discriminator(...)] can produce"""
+    vs = []
+    if sb:
+        for c in cs:
+            vs += subclasses_walk(schema, c)
+    if sp:
+        vs += list(cs)
+    vs = [v for v in vs if not schema["classes"][v].get("disc")]
+    return [v for v in vs if has_tag(schema, v)] if wf else vs
+
+
+def disc_variants(schema, p, wf, sup, tagger=False):
     """the classes a discriminator over p can produce (with a field: the tagged ones)"""
     vs = subclasses_walk(schema, p) + ([p] if sup else [])
-    return [v for v in vs if has_tag(schema, v)] if wf else vs
+    # (a class that is itself a dispatcher - nested class-level discriminator - is abstract: no instances of it)
+    vs = [v for v in vs if not (schema["classes"][v].get("disc") and v != p) and not (v == p and schema["classes"][p].get("disc"))]
+    return [v for v in vs if has_tag(schema, v) or tagger] if wf else vs
 
 
 def descendants(schema, c):
@@ -121,13 +145,13 @@ def ty_classes(t):
         return ty_classes(t[2])
     if t[0] == "opt":
         return ty_classes(t[1])
-    if t[0] == "union":
+    if t[0] in ("union", "discu"):
         return list(t[1])
     return []
 
 
 def ty_has_union(t):
-    if t[0] == "union" or (t[0] == "disc" and not t[2]):
+    if t[0] in ("union", "discu") or (t[0] == "disc" and not t[2]):
         return True      # speculative constructs: Union, discriminator without a field
     if t[0] == "list":
         return ty_has_union(t[2])
@@ -163,6 +187,10 @@ def py_ty(t, cur=None, sp=None, self_c=None):
     if t[0] == "disc":
         args = (['field="kind"'] if t[2] else []) + ["include_subtypes=True"] + (["include_supertypes=True"] if t[3] else [])
         return f'Annotated[K{t[1]}, Discriminator({", ".join(args)})]'
+    if t[0] == "discu":
+        args = (['field="kind"'] if t[2] else []) + (["include_subtypes=True"] if t[3] else []) \
+            + (["include_supertypes=True"] if t[4] else [])
+        return "Annotated[Union[" + ", ".join(f"K{c}" for c in t[1]) + f'], Discriminator({", ".join(args)})]'
     if t[0] == "list":
         inner = py_ty(t[2], cur, sp, self_c)
         if sp.get("builtin") and not plain:
@@ -218,6 +246,10 @@ NOCTX = object()  # "the keyword was not passed"
 UID = [0]
 PRE_N = [0]
 REPL = {repl}     # hooks return new objects instead of their argument
+
+
+def _tagger(cls):          # variant_tagger_fn: every variant is registered under its class name
+    return cls.__name__
 
 
 def _post_init(self):
@@ -305,8 +337,13 @@ def class_source(schema) -> str:
             cfg.append("code_generation_options = [" + ", ".join(opts) + "]")
         elif k["own_ctx"] is not None:
             cfg.append("code_generation_options = " + ("[ADD_SERIALIZATION_CONTEXT]" if k["own_ctx"] else "[]"))
+        elif k.get("disc") and k["parent"] is not None:
+            # a Config of its own (for the nested discriminator) replaces the inherited one: restate the inherited option
+            cfg.append("code_generation_options = " + ("[ADD_SERIALIZATION_CONTEXT]" if ctx_on(schema, c) else "[]"))
         if k.get("disc") == "nofield":
             cfg.append('discriminator = Discriminator(include_subtypes=True)')
+        elif k.get("disc") and k.get("tagger"):
+            cfg.append('discriminator = Discriminator(field="kind", include_subtypes=True, variant_tagger_fn=_tagger)')
         elif k.get("disc"):
             cfg.append('discriminator = Discriminator(field="kind", include_subtypes=True)')
         if k.get("tag"):
@@ -451,7 +488,7 @@ def wire_of(schema, v, drop_default_none=False):
         if x[0] == "none" and drop_default_none and name_default(schema, n):
             continue
         d[f"f{n}"] = wire_of(schema, x, drop_default_none)
-    if has_tag(schema, c):
+    if has_tag(schema, c) or under_tagger(schema, c):
         d["kind"] = f"K{c}"
     return d
 
@@ -476,7 +513,7 @@ def _union_orders_ann(a, out):
 
 
 def _union_orders_ty(t, out):
-    if t[0] == "union":
+    if t[0] in ("union", "discu"):
         out.append([f"K{c}" for c in t[1]])
     elif t[0] == "list":
         _union_orders_ty(t[2], out)
@@ -714,7 +751,7 @@ def subtree_uids(v):
 
 def subclass_positions(schema, t, v, out):
     """instances whose class is a strict subclass of the dataclass the position is declared with"""
-    if t[0] == "union":
+    if t[0] in ("union", "discu"):
         if v[0] == "inst":
             if v[1] not in t[1]:
                 out.append(v)
@@ -738,7 +775,12 @@ def declared_positions(schema, t, v, out):
         out.append((t[1], v))
         for n, x in v[4]:
             declared_positions(schema, name_ty(schema, n), x, out)
-    elif t[0] == "union" and v[0] == "inst":
+    elif t[0] in ("union", "discu") and v[0] == "inst":
+        if v[1] not in t[1]:      # an instance of a subclass of a member: the member it descends from is the declared class
+            for m in t[1]:
+                if v[1] in descendants(schema, m):
+                    out.append((m, v))
+                    break
         for n, x in v[4]:
             declared_positions(schema, name_ty(schema, n), x, out)
     elif t[0] == "list" and v[0] == "list":
@@ -759,7 +801,7 @@ def is_format_method(schema, entry):
 
 def union_positions(schema, t, v, out, via_codec):
     """(members, value) for every union position of the value"""
-    if t[0] == "union":
+    if t[0] in ("union", "discu"):
         out.append((t[1], v))
         if v[0] == "inst":
             union_positions(schema, ["dc", v[1]], v, out, via_codec)
@@ -942,6 +984,8 @@ def coq_ty(t):
         return f"(TOpt {coq_ty(t[1])})"
     if t[0] == "disc":
         return f"(TDisc {t[1]} {coq_bool(t[2])} {coq_bool(t[3])})"
+    if t[0] == "discu":
+        return "(TDiscU [" + "; ".join(str(c) for c in t[1]) + f"] {coq_bool(t[2])} {coq_bool(t[3])} {coq_bool(t[4])})"
     return "(TUnion [" + "; ".join(str(c) for c in t[1]) + "])"
 
 
@@ -963,7 +1007,8 @@ def coq_env(schema):
         tag = f"(Some {c})" if k.get("tag") else "None"
         disc = {None: "None", False: "None", "field": "(Some true)", True: "(Some true)", "nofield": "(Some false)"}[k.get("disc")]
         cs.append(f"Build_cinfo [{fl}] " + " ".join(coq_bool(has_hook(schema, c, h)) for h in HOOKS)
-                  + " " + coq_bool(ctx_on(schema, c)) + f" {par} {tag} {disc} " + coq_xf(class_flags(schema, c)))
+                  + " " + coq_bool(ctx_on(schema, c)) + f" {par} {tag} {disc} " + coq_xf(class_flags(schema, c))
+                  + " " + coq_bool(k.get("tagger")))
     return "[" + ";\n      ".join(cs) + "]"
 
 
